@@ -1862,9 +1862,14 @@ func (p *PubSub) PublishBatch(batch *MessageBatch, opts ...BatchPubOpt) error {
 	}
 	setDefaultBatchPublishOptions(publishOptions)
 
-	p.sendMessageBatch <- messageBatchAndPublishOptions{
+	req := messageBatchAndPublishOptions{
 		messages: batch.take(),
 		opts:     publishOptions,
+	}
+	select {
+	case p.sendMessageBatch <- req:
+	case <-p.ctx.Done():
+		return p.ctx.Err()
 	}
 
 	return nil
